@@ -54,6 +54,8 @@ using L_V14 = List<D<P, u8>, D<V, u16>, D<P, u32>, D<V, u8>, D<P, u16>, D<V, f32
 using L_M4 = List<D<F, u8>, D<P, u16>, D<P, sz, 8>, D<V, u32>, D<F, u16, 4>, D<P, u8>>;
 // a byte span followed by an aligned parameter: elements with span lengths 1, 2 and 3 have the same size (padding absorbs it)
 using L_V15 = List<D<P, u8>, D<V, u8>, D<P, u32, 4>>;
+// a span of non-trivial objects followed by a higher-aligned parameter: span lengths 0 and 1 give the same element size
+using L_V16 = List<D<P, sz, 8>, D<V, Trk>, D<P, u32, 16>>;
 // mixed
 using L_M1 = List<D<F, f32, 16>, D<P, u32>, D<P, sz, 8>, D<V, f32, 8>>;
 using L_M2 = List<D<F, Trk>, D<P, u8>, D<V, Trk>>;
